@@ -109,6 +109,15 @@ func (s *Sim) RunQueryScript(b *WB, c *Compiled, o *Op) (fd *Finding) {
 		if len(ref) >= 2 {
 			s.label("query: >=2 entities")
 		}
+		tables := map[EntState]bool{}
+		for _, ord := range refOrd {
+			tables[s.M.Ents[ord].EntState] = true
+		}
+		s.Flag("query.tables", len(tables))
+		s.Flag("query.entities", len(ref))
+		if len(tables) >= 2 {
+			s.label("query: >=2 tables")
+		}
 		// scripted pass
 		q := b.W.Query(flt)
 		open := true
